@@ -193,6 +193,8 @@ fn seamtest() -> Result<Vec<String>, String> {
             ("VERIF_NCPU".to_string(), ncpu.to_string()),
             ("VERIF_SLIDE_MMAP".to_string(), slide.to_string()),
             ("VERIF_PROBE_SET".to_string(), format!("v{k}")),
+            ("VERIF_CLOCK_STEP_NS".to_string(), (k as u64 * 1_000_000).to_string()),
+            ("VERIF_ISATTY".to_string(), (1 + k as u64 % 2).to_string()),
         ];
         let mut p = proc::Proc::start(&env, None).map_err(|e| e.to_string())?;
         p.set_clock(1_000_000 + k as i64, 5).map_err(|e| e.to_string())?;
@@ -208,13 +210,16 @@ fn seamtest() -> Result<Vec<String>, String> {
         if !l.contains(&format!("now={}", 1_000_000 + k as i64)) || !l.contains(&format!("pid={}", 100 + k)) {
             return Err(format!("simulated clock/pid not seen by the worker: {l}"));
         }
+        if !l.contains(&format!("elapsed={} ", k as u64 * 1_000_000)) || !l.contains(&format!("tty={} ", k % 2 == 1)) {
+            return Err(format!("simulated elapsed time / isatty not seen by the worker: {l}"));
+        }
         if *ncpu > 0 && !l.contains(&format!("ncpu={ncpu} ")) {
             return Err(format!("simulated cpu count not seen by the worker: {l}"));
         }
         seen.push(l);
     }
     // same world twice => identical observations, including the heap address
-    let strip = |s: &str| s.replace("v1", "v").replace("v3", "v").replace("now=1000001", "now").replace("now=1000003", "now").replace("pid=101", "pid").replace("pid=103", "pid");
+    let strip = |s: &str| s.replace("elapsed=1000000", "elapsed").replace("elapsed=3000000", "elapsed").replace("v1", "v").replace("v3", "v").replace("now=1000001", "now").replace("now=1000003", "now").replace("pid=101", "pid").replace("pid=103", "pid");
     if strip(&seen[1]) != strip(&seen[3]) {
         return Err(format!("identical worlds observed different things:\n  {}\n  {}", seen[1], seen[3]));
     }
